@@ -178,7 +178,7 @@ class wrapper(dictattr):
     def _kwargs(self):
         return {key: value for key, value in self.items() if key!=_function and key!=_spec}
 
-    def __call__(self, *args, **kwargs):
+    def __call__(self, /, *args, **kwargs): # self is positional only: the keywords may hold a key named 'self' (a row of a table with such a column)
         if self[_function] is None and len(args) == 1 and len(kwargs) == 0:
             return type(self)(function = args[0], **self._kwargs)
         else:
@@ -382,7 +382,7 @@ class kwargs_support(wrapper):
     def _args(self):
         return getargs(self.function)
         
-    def wrapped(self, *args, **kwargs):
+    def wrapped(self, /, *args, **kwargs):
         _args = self._args
         kwargs = {key : value for key, value in kwargs.items() if key in _args}
         return self.function(*args, **kwargs)
